@@ -274,7 +274,14 @@ func (c *cfsCtl) marshal() (string, bool) {
 	if c.dead {
 		return "", false
 	}
-	inflight := c.kc.nwaiting() > 0 && (c.forceInflight || c.r.Chance(1, 2))
+	// Saves that START while background writes are still in flight are not generated: the Go code then
+	// re-commits the segments being flushed in a new synchronous block, so the text of the manifest
+	// depends on where inside the call each completion lands, which the event vocabulary (completion
+	// before or after the save) cannot express; such cases made the model comparison fail on the
+	// unchanged tree (thorough tier, 30 of 4000 histories).  The machinery is kept for a model with
+	// completions inside a save.
+	const cfsInflightSaves = false
+	inflight := cfsInflightSaves && c.kc.nwaiting() > 0 && (c.forceInflight || c.r.Chance(1, 2))
 	if inflight {
 		// the save starts while background writes are still parked in Keep; they are released one by
 		// one once the call is seen waiting (events: the completions, then the save)
